@@ -168,6 +168,9 @@ class MergeConsecutiveOp(BaseOp):
         """
         remove_df = pd.DataFrame(remove_groups, columns=["remove"])
         max_groups = max(remove_groups)
+        # A merged duration need not be a whole number even if every duration in the file is.
+        if pd.api.types.is_integer_dtype(df_new["duration"]):
+            df_new["duration"] = df_new["duration"].astype(float)
         for index in range(max_groups):
             df_group = df_new.loc[remove_df["remove"]
                                   == index + 1, ["onset", "duration"]]
